@@ -1,4 +1,4 @@
-From DB Require Import Base.Bytes Model.LogStoreSpec Model.KV Model.LogDBPlain Model.LogDBBatched Model.TanIndex.
+From DB Require Import Base.Bytes Model.LogStoreSpec Model.KV Model.LogDBPlain Model.LogDBBatched Model.TanIndex Model.LogBootSpec.
 Require Extraction.
 Require Import ExtrOcamlBasic.
 Extraction Language OCaml.
@@ -6,4 +6,5 @@ Extraction "../ocaml/c09/model.ml" util_add util_mul util_divmod
   spec_init spec_wf_op spec_step spec_wf_query spec_answer c09_z_succ
   pdb_init plain_step plain_query canon
   index_update index_query
-  batched_step batched_query.
+  batched_step batched_query
+  bs_get bs_set bs_has boot_step.
